@@ -11,6 +11,8 @@ Oracles per attempt: outcome (geometry or ordinary Exception), simulated time (P
 in trimesh and its dependencies) within a + b*len, tracemalloc peak within A + B*len, every file
 opened during the call closed, no descriptor leaked; after the faults a valid load still works.
 """
+import contextlib
+import io as _io_mod
 import os
 import random as _random
 import re
@@ -27,12 +29,14 @@ from ..worlds import files as fw
 # fixed budgets (measured once on the unchanged tree with >= 20x margin; never recalibrated at run time)
 STEP_A, STEP_B = 150_000, 300
 MEM_A, MEM_B = 48 * 2**20, 3000
+# resident memory that is still held when the call returns (C-level allocations included): coarse, because the allocator keeps arenas
+RSS_A, RSS_B = 128 * 2**20, 300
 
 FAULTS = [
     "none", "truncate", "truncate_boundary", "flip_bit", "set_byte", "add_byte", "int_field", "u32_field", "delete_range", "dup_range",
     "swap_ranges", "zero_fill", "splice_same", "splice_other", "append_garbage", "empty", "whitespace", "random_bytes", "token_soup",
     "side_missing", "side_truncated", "side_swapped", "stream_eio", "stream_eof", "stream_closed", "multi_flip", "len_field", "many_lines_one_long",
-    "token_copy", "json_field", "container_inner",
+    "token_copy", "json_field", "container_inner", "amplifier",
 ]
 CONTAINERS = {"3mf", "glb", "zip_stl", "zip_ply", "zip_glb", "zip_obj_mtl", "targz_obj", "tarbz2_ply", "bz2_stl"}
 TEXTUAL = {"gltf", "dae", "svg", "dxf", "obj", "obj_mtl", "off", "ply_ascii", "stl_ascii", "dict", "dict64", "xyz"}
@@ -51,6 +55,28 @@ SOUP = {
     "xyz": [b"0 0 0\n", b"1 2 3 255 0 0\n", b"a b c\n", b"1e400 0 0\n", b"\n"],
     "binvox": [b"#binvox 1\n", b"dim 2 2 2\n", b"dim 99999 99999 99999\n", b"translate 0 0 0\n", b"scale 1\n", b"data\n", b"\x01\x08", b"\x00\xff"],
 }
+
+
+# amplifiers whose cost on the unchanged tree is polynomial in the input rather than proportional to it (recorded findings): they run
+# with a 100 times larger allowance, must still end, and anything beyond that allowance is a violation like any other
+AMP_FINDINGS = {"dxf_flat": "C20-dxf-insert-expansion-quadratic", "3mf_chain_deep": "C20-3mf-component-chain-superlinear"}
+
+
+# loaders registered by trimesh for formats it cannot write (its own wrappers around meshio / lxml / openctm): arbitrary bytes and
+# corrupted model files of the tree under test. STEP (cascadio, native code) is left out: see DESIGN.
+FOREIGN = ["vtk", "vtu", "msh", "mesh", "nas", "inp", "xaml", "3dxml", "ctm", "zae", "wkt", "tec", "ugrid", "su2", "xdmf", "bdf", "avs"]
+
+
+FOREIGN_FAULTS = ["none", "truncate", "truncate_boundary", "flip_bit", "multi_flip", "set_byte", "add_byte", "delete_range", "zero_fill", "empty", "whitespace", "random_bytes", "token_soup",
+                  "append_garbage", "splice_same", "splice_other", "stream_eio", "stream_eof", "stream_closed", "token_copy"]
+
+
+class _Null(_io_mod.TextIOBase):
+    def write(self, s):
+        return len(s)
+
+
+_DEVNULL = _Null()
 
 
 def budget_steps(n):
@@ -83,6 +109,10 @@ def apply_fault(data, f, other=b""):
         toks = SOUP.get(f.get("fmt"), SOUP["obj"])
         r = _random.Random(f["salt"])
         return b"".join(r.choice(toks) for _ in range(1 + f.get("n", 10) % 60))
+    if k == "amplifier":
+        from ..worlds import amplifiers
+
+        return amplifiers.build(f["sub"], f.get("a", 0), f.get("b", 0), f.get("fmt"))
     if n == 0:
         return data
     if k == "token_copy":
@@ -395,12 +425,12 @@ def boundaries(data, ft):
 class C20(World):
     ID = "C20"
     LEVEL = "fault_enumeration"
-    RUNS = {"quick": 6000, "thorough": 300000}
+    RUNS = {"quick": 5000, "thorough": 300000}
     WALL = {"quick": 115.0, "thorough": 1700.0}
     BLOCK = 40
     BLOCK_TIMEOUT = 300
     RULE = (
-        "one evaluation = one valid payload (36 kind/format pipes, or one of ~90 small model files of the tree under test) + 2-8 load attempts each under one storage or stream fault (31 kinds; in the thorough "
+        "one evaluation = one valid payload (36 kind/format pipes, or one of ~90 small model files of the tree under test) + 2-8 load attempts each under one storage or stream fault (32 kinds; in the thorough "
         "tier truncation is enumerated at every offset for payloads <= 4 KiB) x 4 loader entry points x 3 transports; distinct_nontrivial counts distinct "
         "(format, fault kind, route, transport, outcome class) tuples observed"
     )
@@ -458,11 +488,23 @@ class C20(World):
             import yaml  # noqa: F401
         except Exception:
             pass
+        import io as _io
+
+        import trimesh
+
+        for ft in FOREIGN:
+            try:
+                with contextlib.redirect_stdout(_DEVNULL), contextlib.redirect_stderr(_DEVNULL):
+                    trimesh.load(_io.BytesIO(b"warm up\n1 2 3\n"), file_type=ft)
+            except BaseException:
+                pass
 
     # ------------------------------------------------------------------ generation
     def swarm(self, rng):
         kind, fmt = rng.choice(fw.ALL_PAIRS)
-        routes = {"mesh": ["load", "load_mesh", "load_scene"], "scene": ["load", "load_scene", "load_mesh"], "points": ["load", "load_scene"], "path2d": ["load", "load_path", "load_scene"], "path3d": ["load", "load_scene"], "voxel": ["load"]}[kind]
+        if rng.random() < 0.06:
+            kind, fmt = "foreign", rng.choice(FOREIGN)
+        routes = {"foreign": ["load", "load_mesh", "load_scene"], "mesh": ["load", "load_mesh", "load_scene"], "scene": ["load", "load_scene", "load_mesh"], "points": ["load", "load_scene"], "path2d": ["load", "load_path", "load_scene"], "path3d": ["load", "load_scene"], "voxel": ["load"]}[kind]
         return {
             "kind": kind, "fmt": fmt, "routes": routes,
             "weights": swarm_weights(rng, FAULTS, keep_p=0.5, always=("truncate",)),
@@ -488,6 +530,14 @@ class C20(World):
             f["lval"] = rng.choice(["x10", "x1000", "two32", "two31", "neg", "zero", "one_more", "one_less", "huge", "bit31", "bit31", "bit30", "bit28", "top7f", "top7f", "bit24"])
         if kind.startswith("stream_"):
             f["n"] = rng.choice([1, 1, 2, 3, 5, 9])
+        if kind == "amplifier":
+            from ..worlds import amplifiers
+
+            subs = amplifiers.FAMILIES.get(fmt)
+            if not subs:
+                f["kind"] = "token_soup"  # no amplifier is known for this format
+            else:
+                f.update({"sub": rng.choice(subs), "a": rng.randrange(10**6), "b": rng.randrange(10**6), "fmt": fmt})
         if kind == "container_inner":
             ik = rng.choice(INNER_KINDS)
             f["inner"] = {"kind": ik, "salt": rng.randrange(2**31), "at": rng.randrange(2**16), "a": rng.randrange(2**16), "b": rng.randrange(2**16), "bit": rng.randrange(8), "j": rng.randrange(40),
@@ -495,6 +545,15 @@ class C20(World):
         return f
 
     def generate(self, rng, cfg):
+        if cfg["kind"] == "foreign":
+            ops = [{"op": "payload", "geom": {"kind": "foreign"}, "other": {"kind": "foreign"}, "rs": rng.randrange(2**31), "corpus": rng.randrange(2**16)}]
+            for _ in range(cfg["n_attempts"]):
+                kind = pick(rng, cfg["weights"])
+                if kind not in FOREIGN_FAULTS:
+                    # faults that blow up counts or sizes only measure somebody else's parser (71 s and 8.6 GB requested by a .msh reader)
+                    kind = rng.choice(FOREIGN_FAULTS)
+                ops.append({"op": "attempt", "fault": self._gen_fault(rng, kind, cfg["fmt"]), "route": rng.choice(cfg["routes"]), "transport": rng.choice(["bytesio", "simfile", "path"]), "rs": rng.randrange(2**31)})
+            return {"config": cfg, "ops": ops}
         geom, other = fw.random_geometry_recipe(rng, cfg["kind"]), fw.random_geometry_recipe(rng, cfg["kind"])
         for g in (geom, other):
             if str(g.get("shape", "")).startswith("large"):
@@ -552,6 +611,14 @@ class C20(World):
             got = fw.corpus_payload(cfg["fmt"], op["corpus"])
             if got is not None:
                 return self._corpus_payload(got, op, cfg, st, ctx)
+        if cfg["kind"] == "foreign":
+            # no model file of this type in the tree: the starting point is a few lines of text
+            main = "model." + cfg["fmt"]
+            files = {main: b"# " + cfg["fmt"].encode() + b" 1.0\n3 1 0\n0 0 0\n1 0 0\n0 1 0\n3 0 1 2\n"}
+            st.update({"files": dict(files), "main": main, "ft": cfg["fmt"], "pristine": dict(files), "want": None, "other": b""})
+            ctx.count("op:payload:foreign:" + cfg["fmt"])
+            ctx.event("payload-foreign", cfg["fmt"])
+            return
         obj = fw.build_geometry(op["geom"], cfg["fmt"])
         if cfg["kind"] == "mesh" and op["geom"].get("shape") == "empty":
             op = dict(op, geom=dict(op["geom"], shape="normal"))
@@ -572,9 +639,12 @@ class C20(World):
         """A model file of the tree under test as the valid payload: what a fault-free load returns now is what it must return after the faults."""
         files, main, ft, name = got
         try:
-            base = fw.load_payload(files, main, ft, route="load", transport="bytesio", kwargs={"process": False} if cfg["kind"] in ("mesh", "scene", "points") else {})[0]
-            want = fw.content(fw.normalise_loaded(base, cfg["kind"]))
-        except Exception:
+            with contextlib.redirect_stdout(_DEVNULL), contextlib.redirect_stderr(_DEVNULL):
+                base = fw.load_payload(files, main, ft, route="load", transport="bytesio", kwargs={"process": False} if cfg["kind"] in ("mesh", "scene", "points") else {})[0]
+            want = fw.content(fw.normalise_loaded(base, cfg["kind"])) if cfg["kind"] != "foreign" else None
+        except (KeyboardInterrupt, MemoryError):
+            raise
+        except BaseException:
             # a model the loader does not accept as it stands (several are deliberately broken): still a good starting point for faults
             want = None
         st.update({"files": dict(files), "main": main, "ft": ft, "pristine": dict(files), "want": want, "other": b""})
@@ -630,11 +700,16 @@ class C20(World):
         holder = {}
 
         def call():
-            out, fobj = fw.load_payload(files, main, ft, route=route, transport=transport, scratch=scratch, fault=stream_fault)
+            # (third-party readers print their complaints: keep them out of the check's output)
+            with contextlib.redirect_stdout(_DEVNULL), contextlib.redirect_stderr(_DEVNULL):
+                out, fobj = fw.load_payload(files, main, ft, route=route, transport=transport, scratch=scratch, fault=stream_fault)
             holder["fobj"] = fobj
             return out
 
-        res = mon.run(call, budget_steps(total))
+        fid = AMP_FINDINGS.get(f.get("sub")) if kind == "amplifier" else None
+        relaxed = fid is not None and ctx.is_known(fid)
+        foreign = cfg["kind"] == "foreign"
+        res = mon.run(call, budget_steps(total) * (100 if relaxed else (5 if foreign else 1)))
         ctx.steps_sim += res["steps"]
         fired = bool(changed) or (stream_fault is not None)
         ctx.count("op:attempt")
@@ -649,12 +724,33 @@ class C20(World):
         ctx.reach(cfg["fmt"], kind, route, transport, exc_name or "returned")
         ctx.event("attempt", cfg["fmt"], kind, route, transport, outcome, exc_name)
         label = f"{cfg['fmt']} {kind} via {route}/{transport} ({total} bytes)"
+        if relaxed and outcome != "step-budget" and res["peak"] <= 20 * budget_mem(total) and (res["steps"] > budget_steps(total) or res["peak"] > budget_mem(total)):
+            # the recorded finding reproduced with its predicted behaviour: it ends, at a polynomial cost
+            ctx.finding(fid, f"{res['steps']} steps, {res['peak']} bytes for {total} bytes")
+            res = dict(res, steps=0, peak=0)
+        if foreign:
+            # time and memory are spent inside a third-party parser trimesh only wraps: counted, not judged. What trimesh's wrapper
+            # owns is judged: the kind of outcome, the files it opened, the descriptors, the temporary files.
+            if outcome in ("step-budget", "memory-error") or res["steps"] > budget_steps(total) or res["peak"] > budget_mem(total):
+                ctx.count("probe:third-party-parser-over-budget")
+            if outcome in ("step-budget", "memory-error"):
+                return
+            res = dict(res, steps=0, peak=0)
         if outcome == "step-budget" or res["steps"] > budget_steps(total):
             ctx.fail("time", cfg["fmt"] + "-" + kind, f"{label}: {res['steps']} steps > budget {budget_steps(total)}: {exc}")
         if outcome == "memory-error":
             ctx.fail("memory", cfg["fmt"] + "-" + kind, f"{label}: MemoryError {exc}")
         if res["peak"] > budget_mem(total):
             ctx.fail("memory", cfg["fmt"] + "-" + kind, f"{label}: tracemalloc peak {res['peak']} > budget {budget_mem(total)}")
+        if res.get("rss_delta", 0) > RSS_A + RSS_B * total and not foreign:
+            side = [2000, 5000, 8000][f.get("a", 0) % 3] if f.get("sub") == "glb_image_bomb" else 0
+            fid2 = "C20-texture-decoded-when-scene-is-flattened"
+            if side and route == "load_mesh" and ctx.is_known(fid2) and res["rss_delta"] <= RSS_A + 16 * side * side:
+                # recorded finding: load_mesh flattens the scene, which copies every geometry, and copying a lazily opened PIL image
+                # decodes it (twice the pixel data at most). By load / load_scene nothing is decoded, and that is still demanded.
+                ctx.finding(fid2, f"{res['rss_delta']} bytes resident for a {side}x{side} texture in {total} bytes")
+            else:
+                ctx.fail("memory", cfg["fmt"] + "-" + kind + "-resident", f"{label}: resident memory grew by {res['rss_delta']} bytes over the call (budget {RSS_A + RSS_B * total})")
         if outcome == "base-exception":
             ctx.fail("outcome", cfg["fmt"] + "-" + kind, f"{label}: raised {exc_name} (not an ordinary Exception)")
         if outcome == "returned":
@@ -696,6 +792,22 @@ class C20(World):
         ctx.event("valid_after", cfg["fmt"], res["outcome"])
 
     # ------------------------------------------------------------------ shrinking
+    def finding_programs(self, known):
+        geom = {"kind": "mesh", "salt": 1, "shape": "normal", "colors": None, "attributes": False, "mesh": {"base": "tetra", "variant": "plain", "salt": 1, "jitter": 0.03, "offset": [0.0, 0.0, 0.0], "size": 1.0}}
+        progs = []
+        g0 = geom
+        cfg0 = {"kind": "mesh", "fmt": "glb", "routes": ["load_mesh"], "weights": {"amplifier": 1.0}, "n_attempts": 1, "stack": False, "enumerate_truncation": False}
+        progs.append(("C20-texture-decoded-when-scene-is-flattened", {"config": cfg0, "seed": 1, "ops": [
+            {"op": "payload", "geom": g0, "other": g0, "rs": 1, "corpus": None},
+            {"op": "attempt", "fault": {"kind": "amplifier", "sub": "glb_image_bomb", "a": 2, "b": 0, "fmt": "glb", "salt": 1, "at": 0}, "route": "load_mesh", "transport": "bytesio", "rs": 2}]}))
+        for fmt, sub, a, b in (("dxf", "dxf_flat", 120, 120), ("3mf", "3mf_chain_deep", 0, 0)):
+            kind = "path2d" if fmt == "dxf" else "mesh"
+            g = {"kind": "path2d", "salt": 1, "shape": "square"} if fmt == "dxf" else geom
+            cfg = {"kind": kind, "fmt": fmt, "routes": ["load"], "weights": {"amplifier": 1.0}, "n_attempts": 1, "stack": False, "enumerate_truncation": False}
+            fault = {"kind": "amplifier", "sub": sub, "a": a, "b": b, "fmt": fmt, "salt": 1, "at": 0}
+            progs.append((AMP_FINDINGS[sub], {"config": cfg, "seed": 1, "ops": [{"op": "payload", "geom": g, "other": g, "rs": 1, "corpus": None}, {"op": "attempt", "fault": fault, "route": "load", "transport": "bytesio", "rs": 2}, {"op": "valid_after", "rs": 3}]}))
+        return progs
+
     def simplify_op(self, op):
         out = []
         if op["op"] == "attempt":
